@@ -496,7 +496,9 @@ func (c *FnCtx) checkWrite(env *Env, lhs ast.Expr, loc *Loc) {
 				env.safe("safe:index", lhs.Pos(), and(app("<=", "0", pe.Idx.S), app("<", pe.Idx.S, fmt.Sprint(si.N))), "index in range")
 			}
 		case "mapidx":
-			env.safe("safe:nil-map-write", lhs.Pos(), app(cur.Sort+".nonnil", cur.S), "map is non-nil")
+			if i == len(loc.Path)-1 {
+				env.safe("safe:nil-map-write", lhs.Pos(), app(cur.Sort+".nonnil", cur.S), "map is non-nil")
+			}
 		}
 		cur = env.readPath(root, loc.Path[:i+1], lhs.Pos(), false)
 	}
